@@ -241,6 +241,8 @@ class Run:
         """Run a mutating operation of the implementation."""
         try:
             return fn(*a, **k)
+        except PropertyViolation:
+            raise
         except Exception as exc:
             self.on_op_exception(exc)
 
@@ -470,6 +472,8 @@ class Run:
             except KeyError:
                 self.flags['delete_now_absent_keyerror'] += 1
                 return
+            except PropertyViolation:
+                raise
             except Exception as exc:
                 self.on_op_exception(exc)
             if 'queries' in self.checks or 'deletion' in self.checks:
@@ -725,6 +729,8 @@ class Run:
             if 'deletion' in self.checks:
                 self.viol('process_does_not_terminate', error=str(exc))
             raise Abort('process budget')
+        except PropertyViolation:
+            raise
         except Exception as exc:
             if exc is getattr(self, 'user_error', None):
                 return self.after_user_failure()
@@ -794,6 +800,8 @@ class Run:
                         self.in_process = False
                 except StepBudgetExceeded as exc:
                     self.viol('process_does_not_terminate', error=str(exc), after='a callback raised in process()')
+                except PropertyViolation:
+                    raise
                 except Exception as exc:
                     self.viol('world_keeps_failing_after_a_failed_process', frames_later=k + 1, exception=repr(exc))
             ids = list(self.known_ids) + NEVER_USED
@@ -807,6 +815,8 @@ class Run:
                     w.get_components(e)
                     w.entity_exists(e)
                 list(w.entities)
+            except PropertyViolation:
+                raise
             except Exception as exc:
                 self.viol('world_keeps_failing_after_a_failed_process', query=True, exception=repr(exc))
         raise Abort('a callback raised inside process()')
@@ -860,6 +870,8 @@ class Run:
                 self.releasing = False
         except StepBudgetExceeded:
             raise Abort('enable budget (C04)')
+        except PropertyViolation:
+            raise
         except Exception as exc:
             if 'lifecycle' in self.checks:
                 self.viol('enabling_raised', exception=repr(exc), queued=self.fmt_groups(self.queue))
@@ -950,6 +962,8 @@ class Run:
                 continue
             try:
                 h = self.world.is_handler(c)
+            except PropertyViolation:
+                raise
             except Exception as exc:
                 self.viol('is_handler_raised', exception=repr(exc))
             if h != (id(c) in att):
@@ -960,6 +974,8 @@ class Run:
     def q(self, fn, *a):
         try:
             return fn(*a)
+        except PropertyViolation:
+            raise
         except Exception as exc:
             self.viol('query_raised', query=getattr(fn, '__name__', repr(fn)), args=repr(a), exception=repr(exc))
 
@@ -1037,6 +1053,8 @@ class Run:
         for p in list(self.pending):
             try:
                 obs['left'][repr(p)] = [repr(c) for c in self.world.get_components(p)]
+            except PropertyViolation:
+                raise
             except Exception as exc:        # judged by check_frame
                 obs['left'][repr(p)] = ['<raised %r>' % (exc,)]
         self.frame_obs = obs
@@ -1086,6 +1104,8 @@ class Run:
                 break
             except StepBudgetExceeded as exc:
                 self.viol('process_does_not_terminate', error=str(exc))
+            except PropertyViolation:
+                raise
             except Exception:
                 self.flags['failed_frame_again'] += 1
         if not ok:
@@ -1113,7 +1133,33 @@ class Run:
         if 'lifecycle' in self.checks:
             self.check_handlers()
 
+    def observe_inside(self, comp, kind, args):
+        """called from inside every lifecycle callback (C01 only): whatever the operation in progress, an entity
+        that owns no component right now does not exist right now, and entities / entity_exists agree."""
+        if kind not in ('on_add', 'on_remove') or not args:
+            return
+        e = args[0]
+        w = self.world
+        try:
+            owns = bool(w.get_components(e))
+            exists = w.entity_exists(e)
+            listed = any(x == e for x in w.entities)
+        except PropertyViolation:
+            raise
+        except Exception as exc:
+            self.viol('query_raised', where='inside ' + kind, exception=repr(exc))
+        self.flags['queries_from_inside_a_callback'] += 1
+        if exists and not owns:
+            self.viol('entity_exists_differs', where='inside %s of %r' % (kind, comp), entity=repr(e), got=True,
+                      expected=False, note='the entity owns no component at this moment')
+        if bool(exists) != listed:
+            self.viol('entities_differs', where='inside %s of %r' % (kind, comp), entity=repr(e),
+                      entity_exists=exists, listed=listed)
+
     def run(self):
+        from vlib.classes import RecBase
+        if 'queries' in self.checks:
+            RecBase._observer = self.observe_inside
         try:
             self.after_step()
             for i, op in enumerate(self.case['ops']):
@@ -1122,6 +1168,8 @@ class Run:
                 self.after_step()
         except Abort:
             self.flags['aborted'] += 1
+        finally:
+            RecBase._observer = None
         if has_diamond(self.classes):
             self.flags['diamond'] += 1
         return self
